@@ -236,3 +236,16 @@ Example generic_code_roundtrip_example :
   generic_roundtrip strG dumps loads "1.2.0" ex_model = Some (strip strG ex_model) /\
   model_eq strG (strip strG ex_model) ex_model = true.
 Proof. cbn zeta. repeat split; vm_compute; reflexivity. Qed.
+
+(* a builder history with remove_flow: the flow is entered, removed and entered again, which moves
+   it to the end of its compartment's successors; the guards hold and the system comes back exactly *)
+Example remove_flow_example :
+  let h := [BAddComp strG central; BAddComp strG periph; BAddFlow strG (NComp strG central) (NOut strG) kel;
+            BAddFlow strG (NComp strG central) (NComp strG periph) k12; BAddFlow strG (NComp strG periph) (NComp strG central) k21;
+            BRemoveFlow strG (NComp strG central) (NOut strG); BAddFlow strG (NComp strG central) (NOut strG) kel] in
+  run_bops strG h = cs_g strG sys_cp /\
+  run_bops strG (firstn 6 h) <> run_bops strG (firstn 5 h) /\
+  cs_ok strG (mkCs strG (run_bops strG (firstn 6 h)) "Symbol('t')") = true /\
+  cs_from_dict strG (cs_to_dict strG (mkCs strG (run_bops strG (firstn 6 h)) "Symbol('t')")) =
+    Some (mkCs strG (run_bops strG (firstn 6 h)) "Symbol('t')").
+Proof. cbn zeta. repeat split; try (vm_compute; reflexivity). vm_compute. intro E. discriminate. Qed.
